@@ -174,58 +174,79 @@ func (v *Vector[T]) ReadFrom(r io.Reader) (n int64, err error) {
 
 		n += inc
 
-		if cap(*v) < size {
-			*v = make([]T, size)
+		// The announced size is not trusted: it must be a valid length and the
+		// backing array only grows as elements are actually read from r.
+		if size < 0 {
+			return n, fmt.Errorf("invalid vector size: %d", size)
 		}
 
-		*v = (*v)[:size]
+		if cap(*v) >= size {
+			*v = (*v)[:size]
+		} else {
+			*v = (*v)[:0]
+		}
+
+		const maxGrow = 1 << 16
 
 		var t T
-		switch any(t).(type) {
-		case uint, uint64, int, int64, float64:
 
-			if inc, err = buffer.ReadAsUint64Slice[T](r, *v); err != nil {
-				return n + inc, fmt.Errorf("buffer.ReadAsUint64Slice[%T]: %w", t, err)
+		for lo := 0; lo < size; {
+
+			hi := min(size, lo+maxGrow)
+
+			if len(*v) < hi {
+				*v = append(*v, make([]T, hi-len(*v))...)
 			}
 
-			n += inc
+			w := (*v)[lo:hi]
 
-		case uint32, int32, float32:
+			switch any(t).(type) {
+			case uint, uint64, int, int64, float64:
 
-			if inc, err = buffer.ReadAsUint32Slice[T](r, *v); err != nil {
-				return n + inc, fmt.Errorf("buffer.ReadAsUint32Slice[%T]: %w", t, err)
-			}
-
-			n += inc
-
-		case uint16, int16:
-
-			if inc, err = buffer.ReadAsUint16Slice[T](r, *v); err != nil {
-				return n + inc, fmt.Errorf("buffer.ReadAsUint16Slice[%T]: %w", t, err)
-			}
-
-			n += inc
-
-		case uint8, int8:
-
-			if inc, err = buffer.ReadAsUint8Slice[T](r, *v); err != nil {
-				return n + inc, fmt.Errorf("buffer.ReadAsUint8Slice[%T]: %w", t, err)
-			}
-
-			n += inc
-		default:
-
-			if _, isReadable := any(new(T)).(io.ReaderFrom); !isReadable {
-				return 0, fmt.Errorf("vector component of type %T does not comply to %T", t, new(io.ReaderFrom))
-			}
-
-			for i := range *v {
-				if inc, err = any(&(*v)[i]).(io.ReaderFrom).ReadFrom(r); err != nil {
-					var t T
-					return n + inc, fmt.Errorf("%T.ReadFrom: %w", t, err)
+				if inc, err = buffer.ReadAsUint64Slice[T](r, w); err != nil {
+					return n + inc, fmt.Errorf("buffer.ReadAsUint64Slice[%T]: %w", t, err)
 				}
+
 				n += inc
+
+			case uint32, int32, float32:
+
+				if inc, err = buffer.ReadAsUint32Slice[T](r, w); err != nil {
+					return n + inc, fmt.Errorf("buffer.ReadAsUint32Slice[%T]: %w", t, err)
+				}
+
+				n += inc
+
+			case uint16, int16:
+
+				if inc, err = buffer.ReadAsUint16Slice[T](r, w); err != nil {
+					return n + inc, fmt.Errorf("buffer.ReadAsUint16Slice[%T]: %w", t, err)
+				}
+
+				n += inc
+
+			case uint8, int8:
+
+				if inc, err = buffer.ReadAsUint8Slice[T](r, w); err != nil {
+					return n + inc, fmt.Errorf("buffer.ReadAsUint8Slice[%T]: %w", t, err)
+				}
+
+				n += inc
+			default:
+
+				if _, isReadable := any(new(T)).(io.ReaderFrom); !isReadable {
+					return 0, fmt.Errorf("vector component of type %T does not comply to %T", t, new(io.ReaderFrom))
+				}
+
+				for i := range w {
+					if inc, err = any(&w[i]).(io.ReaderFrom).ReadFrom(r); err != nil {
+						return n + inc, fmt.Errorf("%T.ReadFrom: %w", t, err)
+					}
+					n += inc
+				}
 			}
+
+			lo = hi
 		}
 
 		return n, nil
